@@ -331,6 +331,13 @@ impl Compress {
             while let Some(item) = it {
                 if Some(ref_offset) == item.offset() {
                     new_offset = Some(uncompressed.len());
+                } else if item.rr_type() == Type::OPT.into() {
+                    // An EDNS option boundary: the OPT record is copied verbatim,
+                    // so offsets inside it move along with the record.
+                    let offset = item.offset().unwrap();
+                    if ref_offset > offset && ref_offset < item.offset_next() {
+                        new_offset = Some(uncompressed.len() + (ref_offset - offset));
+                    }
                 }
                 item.copy_raw_name(&mut uncompressed);
                 Self::uncompress_rdata(
